@@ -236,6 +236,26 @@ return f"Beta('{_NAME}', {self.beta.initValue}, {_LB}, {_UB}, {self.beta.status}
     oi = S.methods['__init__']
     ok = has(oi.node, 'self.mapping = {_K: _V for _K, _V in segmentation_tuple.mapping.items() if _V != self.reference}')
     ctx.add('C17.R3', 'OneSegmentation.__init__', ok, oi, 'the reference category carries no shift' if ok else 'the reference category is no longer excluded', 'ref')
+    DT = prog.cls('segmentation', 'DiscreteSegmentationTuple')
+    dti = DT.methods['__init__']
+    stores = [a for a in walk_no_nested(dti.node) if isinstance(a, ast.Assign) and unparse(a.targets[0]) == 'self.reference']
+    flows = [a for a in stores if any(isinstance(n, ast.Name) and n.id == 'reference' for n in ast.walk(a.value))]
+    if stores and not flows:
+        ctx.add('C17.R3', 'DiscreteSegmentationTuple.__init__:reference', False, dti,
+                f'self.reference is only ever set to {", ".join(sorted({unparse(a.value) for a in stores}))}: the reference category asked for by the caller is never stored, so the first category stays without shift '
+                'and the requested one receives a shift', 'reference', positive=True)
+    else:
+        okr = has(dti.node, """
+if reference is None:
+    self.reference = next(iter(mapping.values()))
+elif reference not in mapping.values():
+    ___
+    raise BiogemeError(__MSG)
+else:
+    self.reference = reference
+""")
+        ctx.add('C17.R3', 'DiscreteSegmentationTuple.__init__:reference', okr if okr else None, dti, 'reference = the category asked for (refused when unknown), the first category by default' if okr else
+                'the choice of the reference category is not in the expected form (default: first category; unknown: BiogemeError; otherwise the category asked for)', 'reference')
     G = prog.cls('segmentation', 'Segmentation')
     sb, sc = G.methods['segmented_beta'], G.methods['segmented_code']
     ok = body_is(sb.body, """
